@@ -44,6 +44,10 @@ SERVED_BY = {
     "memory_maps": ("smaps",), "memory_full_info": ("smaps",),
     "memory_info": ("statm",), "memory_percent": ("statm",),
 }
+# getters answered from the block's cached records alone (no further OS
+# access): asked twice inside one block they answer the same
+REPEAT_STABLE = ("ppid", "status", "cpu_times", "cpu_num", "uids", "gids",
+                 "num_threads", "num_ctx_switches", "memory_info")
 FILES = ("stat", "status", "smaps", "statm", "cmdline", "environ", "io",
          "smaps_rollup")
 SHARED_SOURCES = ("stat", "status", "smaps")
@@ -159,6 +163,21 @@ class Threads(EngineBase):
                 ops.append({"op": "get", "m": rng.choice(STAT_GETTERS)})
             if rng.random() < 0.5:
                 ops.append({"op": "exit"})
+        if rng.random() < 0.10:
+            # targeted prefix: one getter asked twice in one block with the
+            # process changing, turning zombie or leaving in between
+            g_ = rng.choice(REPEAT_STABLE)
+            ops.append({"op": "enter"})
+            if rng.random() < 0.3:
+                ops.append({"op": "get", "m": rng.choice(STAT_GETTERS)})
+            ops.append({"op": "get", "m": g_})
+            ops.append({"op": "ev", "ev": rng.choice([
+                gen_change(rng), gen_change(rng),
+                {"ev": "zombify", "pid": T}, {"ev": "vanish", "pid": T},
+                {"ev": "vanish", "pid": T}])})
+            ops.append({"op": "get", "m": g_})
+            if rng.random() < 0.5:
+                ops.append({"op": "exit"})
         for _ in range(n):
             r = rng.random()
             if r < 0.14:
@@ -195,6 +214,14 @@ class Threads(EngineBase):
                             ["bogus_attr", "nam", "Name", "cpu_time", "pidd",
                              "x", "zz_top", "memory", "open_file", "io"])
                         + rng.choice(["", "", "_", "2"])]
+                    if rng.random() < 0.4:
+                        # names of the class that are no getters: as unknown
+                        # to as_dict() as any other
+                        attrs[-1] = rng.choice([
+                            "children", "parent", "parents", "is_running",
+                            "oneshot", "as_dict", "wait", "kill", "terminate",
+                            "send_signal", "suspend", "resume", "info",
+                            "returncode", "_name", "__class__"])
                 elif k_ < 0.9:
                     # not a collection (JSON cannot carry a generator:
                     # {"iterable": kind} is turned into one when executed)
@@ -222,8 +249,12 @@ class Threads(EngineBase):
                 ops.append(op_)
             elif r < 0.95:
                 ops.append({"op": "ev", "ev": gen_change(rng)})
-            else:
+            elif r < 0.98:
                 ops.append({"op": "ev", "ev": {"ev": "zombify", "pid": T}})
+            else:
+                # the process ends and is reaped (inside a block: what the
+                # block has read stays what it answers from)
+                ops.append({"op": "ev", "ev": {"ev": "vanish", "pid": T}})
         for j, op in enumerate(ops):
             op["id"] = j
         return {"prog": "C16s", "world": world, "ops": ops, "preempt": [],
@@ -543,14 +574,35 @@ class Threads(EngineBase):
                 # read-once for the shared sources
                 for w in SHARED_SOURCES:
                     if block["opens"].get(w, 0) > 1 and not zombie and \
-                            not block.get("faulted"):
+                            T in k.procs and not block.get("faulted"):
                         V("C16.read_once", [w] + (["nested"] if
                                                   block["nested"] else []),
                           name, "/proc/<pid>/%s opened %d times inside one "
                           "oneshot() block" % (w, block["opens"][w]))
                         block["opens"][w] = -10 ** 6
-                # same answer
-                if name not in ("cpu_percent", "create_time", "exe"):
+                # asked twice in one block: the second answer is the first
+                # (getters whose answer comes from the block's records only)
+                if name in REPEAT_STABLE and not block.get("faulted"):
+                    prev = block.setdefault("answers", {}).get(name)
+                    if prev is None:
+                        if got[0] == "value":
+                            block["answers"][name] = got
+                    elif not self._same(prev, got):
+                        V("C16.same_answer", ["repeat"] + (
+                            ["nested"] if block["nested"] else []), name,
+                          "inside one oneshot() block %s() first returned %r "
+                          "and later %r" % (name, prev[1], got[1]))
+                    else:
+                        probes["repeat_in_block_checked"] = probes.get(
+                            "repeat_in_block_checked", 0) + 1
+                # same answer (the differential reference needs a fresh
+                # handle, which cannot be built once the process has left
+                # the table: then only the repeat clause above applies)
+                if T not in k.procs:
+                    probes["getter_in_block_after_process_left"] = \
+                        probes.get("getter_in_block_after_process_left",
+                                   0) + 1
+                elif name not in ("cpu_percent", "create_time", "exe"):
                     cands = []
                     # (a) the shared / memoised source this getter is
                     # documented to be served from, pinned at its first read
@@ -810,6 +862,11 @@ class Threads(EngineBase):
                     if r < 0.6:
                         ops.append({"op": "iter", "consume": rng.choice(
                             [None, None, 1, 2])})
+                        if ops[-1]["consume"] and rng.random() < 0.4:
+                            # a partially consumed iterator the thread keeps
+                            # (a `for` loop left by `break` whose generator
+                            # is still referenced)
+                            ops[-1]["keep_open"] = True
                     elif r < 0.75:
                         ops.append({"op": "is_running_y",
                                     "i": rng.randrange(8)})
@@ -1123,7 +1180,10 @@ class Threads(EngineBase):
                                 got.append(next(g))
                             except StopIteration:
                                 break
-                        g.close()
+                        if op.get("keep_open"):
+                            shared.setdefault("gens", []).append(g)
+                        else:
+                            g.close()
                     shared.setdefault("yielded", {})[t] = got
                     rec["out"] = ("value", got)
                 elif kind == "is_running_y":
@@ -1393,12 +1453,22 @@ class Threads(EngineBase):
                              r_.get("target_pid") == o.pid and
                              r_.get("out") == ("value", False)]
                     t_flag = min([r_["nacc0"] for r_ in flags] or [0])
+                    def end_(r__):
+                        # an iterator the thread kept open is in flight
+                        # until the very end (the two passes of this check
+                        # included)
+                        return 10 ** 12 if r__["op"].get("keep_open") \
+                            else r__["nacc_end"]
+
                     overl = any(
-                        a_ is not b_ and a_["t"] != b_["t"] and
-                        a_["nacc_end"] > t_flag and b_["nacc_end"] > t_flag
-                        and a_["nacc0"] < b_["nacc_end"] and
-                        b_["nacc0"] < a_["nacc_end"]
-                        for a_ in iters for b_ in iters)
+                        a_ is not b_ and (a_["t"] != b_["t"] or
+                                          a_["op"].get("keep_open") or
+                                          b_["op"].get("keep_open")) and
+                        end_(a_) > t_flag and end_(b_) > t_flag
+                        and a_["nacc0"] < end_(b_) and
+                        b_["nacc0"] < end_(a_)
+                        for a_ in iters for b_ in iters) or any(
+                        a_["op"].get("keep_open") for a_ in iters)
                     cause = ["overlapping_iterations_after_flag"] if overl \
                         else ["no_overlapping_iterations"]
                     if any(x is o for x in c):
@@ -1927,7 +1997,7 @@ Threads.COMPONENTS = {
 }
 Threads.PROBES_BY_PROP = {
     "C16": ["same_answer_checked", "served_from_cache_while_changed",
-            "setter_inside_block",
+            "setter_inside_block", "repeat_in_block_checked",
             "nested_enter", "call_right_after_exit", "valid_value_checked",
             "voluntary_switches", "block_exit_exit_exc"],
     "C04": ["voluntary_switches", "eventual_coherence_checked",
